@@ -87,7 +87,8 @@ func lastSeg(label string) string {
 }
 
 const (
-	childDeadline = 150 * time.Second
+	childDeadline = 20 * time.Minute
+	childCPU      = 150 // seconds of processor time
 	childMemLimit = 3 << 30
 )
 
@@ -102,9 +103,25 @@ func probeInChild(t *engine.T, in []byte, trigger string) *engine.Violation {
 	_, _ = f.Write(in)
 	f.Close()
 	self, _ := os.Executable()
+	// the child stops itself after childCPU seconds of processor time (RLIMIT_CPU, set in Aux) or at its address-space
+	// limit: both are independent of the load on the machine. The wall-clock deadline is only a backstop, and the
+	// waiting case keeps the watchdog informed.
 	ctx, cancel := context.WithTimeout(context.Background(), childDeadline)
 	defer cancel()
-	out, err := exec.CommandContext(ctx, self, "--aux", "c04probe", f.Name()).CombinedOutput()
+	var out []byte
+	done := make(chan struct{})
+	go func() {
+		out, err = exec.CommandContext(ctx, self, "--aux", "c04probe", f.Name()).CombinedOutput()
+		close(done)
+	}()
+	for waiting := true; waiting; {
+		select {
+		case <-done:
+			waiting = false
+		case <-time.After(time.Second):
+			engine.Beat()
+		}
+	}
 	t.Transitions(1)
 	if ctx.Err() != nil {
 		return engine.Violate("resource-exhaustion", trigger, "parsing a %d-byte input did not finish within %s (absolute deadline)", len(in), childDeadline)
@@ -131,6 +148,7 @@ func Aux(args []string) int {
 	var lim syscall.Rlimit
 	lim.Cur, lim.Max = childMemLimit, childMemLimit
 	_ = syscall.Setrlimit(syscall.RLIMIT_AS, &lim)
+	_ = syscall.Setrlimit(syscall.RLIMIT_CPU, &syscall.Rlimit{Cur: childCPU, Max: childCPU + 5})
 	in, err := os.ReadFile(args[0])
 	if err != nil {
 		return 2
